@@ -19,9 +19,12 @@ import (
 	"time"
 
 	"verifharness/coqgen"
+	"verifharness/hutil"
 
 	"github.com/virel-project/virel-blockchain/v3/bitcrypto"
 	"github.com/virel-project/virel-blockchain/v3/config"
+	"github.com/virel-project/virel-blockchain/v3/logger"
+	"github.com/virel-project/virel-blockchain/v3/p2p"
 	"github.com/zeebo/blake3"
 )
 
@@ -41,6 +44,36 @@ func main() {
 		c14(os.Args[2])
 	case "c14peer":
 		childMain()
+	case "c14trunc1": // development aid: the one-byte truncation with the prefix kept, many times (see truncateCase)
+		sink := coqgen.NewSink(os.Args[2], "c14", "c14_case", 250)
+		w := newWorld(sink, hutil.NewRng(14), false)
+		for i := 0; i < 1500; i++ {
+			w.truncateCase(1, 0)
+		}
+		sink.Meta["config"] = configName()
+		if err := sink.Close(); err != nil {
+			panic(err)
+		}
+		for k, v := range sink.Meta["classes"].(map[string]int) {
+			fmt.Printf("%6d %s\n", v, k)
+		}
+	case "c14hammer": // development aid: only the concurrent-sender rounds; prints the class histogram
+		if os.Getenv("HAMMER_LOG") != "" {
+			l := logger.New()
+			l.SetLogLevel(2)
+			l.SetStdout(os.Stderr)
+			p2p.Log = l
+		}
+		sink := coqgen.NewSink(os.Args[2], "c14", "c14_case", 250)
+		t0 := time.Now()
+		hammerCases(sink, hutil.NewRng(1414), hutil.Tier() == "thorough")
+		if err := sink.Close(); err != nil {
+			panic(err)
+		}
+		fmt.Printf("%d cases in %v\n%v\n", sink.Len(), time.Since(t0), sink.Meta["hammer_round_wall"])
+		for k, v := range sink.Meta["classes"].(map[string]int) {
+			fmt.Printf("%6d %s\n", v, k)
+		}
 	default:
 		fmt.Println("unknown family", os.Args[1])
 		os.Exit(2)
